@@ -35,6 +35,8 @@ pub fn arr_docs() -> Vec<Value> {
         json!({"s":"a"}),                    // 12 l absent, root scalar a
         json!({"s":"b"}),                    // 13 l absent, root scalar b
         json!({"l♭":[x(), y()], "s":"u"}),   // 14 root scalar u
+        json!({"l♭":[{"_id":"x","v":3}, y()]}), // 15 edit x to a value whose digest (ff3a…) sorts above the deletion marker
+        json!({"l♭":[{"_id":"x","v":4}, y()]}), // 16 edit x (digest 6502…)
     ]
 }
 
@@ -259,5 +261,69 @@ pub fn diamond_scenario(name: &str, doc_idx: &[usize], depth: usize, extra: &[Op
         Op::Commit(1, 0),
         Op::Sync(0, 1),
     ]);
+    sc
+}
+
+/// The winner branch has two edit scripts after the fork, the loser one positional insert; replica 1
+/// receives both of replica 0's versions at once (cold reconstruction cache for that chain).
+pub fn two_patch_scenario(name: &str, depth: usize, extra: &[Op]) -> Scenario {
+    let e = |id: &str| json!({"_id": id, "v": 1});
+    let docs = vec![
+        json!({"l♭":[e("a"), e("b"), e("c")]}),
+        json!({"l♭":[e("n"), e("a"), e("b"), e("c")]}),
+        json!({"l♭":[e("n"), e("a"), e("b"), e("c"), e("m")]}),
+        json!({"l♭":[e("a"), e("w"), e("b"), e("c")]}),
+        json!({"l♭":[e("c"), e("a"), e("b")]}),
+    ];
+    let mut alphabet = vec![Op::Sync(1, 0), Op::Sync(0, 1), Op::Reopen(0), Op::Reopen(1), Op::Upd(1, 4), Op::Commit(1, 0), Op::Upd(0, 4), Op::Commit(0, 0)];
+    alphabet.extend_from_slice(extra);
+    Scenario {
+        name: name.to_string(),
+        nrep: 2,
+        menu: menu(docs),
+        prologue: vec![Op::Upd(0, 0), Op::Commit(0, 0), Op::Sync(1, 0), Op::Upd(0, 1), Op::Commit(0, 0), Op::Upd(0, 2), Op::Commit(0, 0), Op::Upd(1, 3), Op::Commit(1, 0)],
+        alphabet,
+        key_opts: KeyOpts::default(),
+        max_depth: depth,
+        track: false,
+        order: None,
+    }
+}
+
+/// Two replicas that edited x differently and then both set it to the same value: two leaves with the
+/// same index and digest but different parents (the order must still tell them apart).
+pub fn tie_scenario(name: &str, depth: usize, extra: &[Op]) -> Scenario {
+    let xv = |v: u32| json!({"l♭":[{"_id":"x","v":v}, y()]});
+    let docs = vec![xv(1), xv(2), xv(3), xv(4), json!({"l♭":[y()]}), json!({"l♭":[{"_id":"x","v":4}, y(), z()]})];
+    let mut alphabet = vec![Op::Sync(1, 0), Op::Sync(0, 1), Op::Upd(0, 5), Op::Upd(1, 5), Op::Commit(0, 0), Op::Commit(1, 0), Op::Reopen(0)];
+    alphabet.extend_from_slice(extra);
+    Scenario {
+        name: name.to_string(),
+        nrep: 2,
+        menu: menu(docs),
+        prologue: vec![Op::Upd(0, 0), Op::Commit(0, 0), Op::Sync(1, 0), Op::Upd(0, 1), Op::Commit(0, 0), Op::Upd(1, 2), Op::Commit(1, 0), Op::Upd(0, 3), Op::Commit(0, 0), Op::Upd(1, 3), Op::Commit(1, 0)],
+        alphabet,
+        key_opts: KeyOpts::default(),
+        max_depth: depth,
+        track: false,
+        order: None,
+    }
+}
+
+/// Three replicas: replicas 0 and 1 committed concurrently, replica 1 merged and committed a block with
+/// two parents; replica 2 still holds only the shared first commit.
+pub fn trio_merge_scenario(name: &str, depth: usize, extra: &[Op]) -> Scenario {
+    let mut sc = trio_scenario(name, depth);
+    sc.prologue.extend_from_slice(&[
+        Op::Upd(0, 1),
+        Op::Commit(0, 0),
+        Op::Upd(1, 2),
+        Op::Commit(1, 0),
+        Op::Sync(1, 0),
+        Op::ObjPut(1, 1),
+        Op::Commit(1, 1),
+    ]);
+    sc.alphabet = vec![Op::Meld(2, 1), Op::Sync(2, 1), Op::Sync(2, 0), Op::Sync(0, 1), Op::Upd(2, 3), Op::Commit(2, 0), Op::Refresh(2)];
+    sc.alphabet.extend_from_slice(extra);
     sc
 }
